@@ -53,9 +53,9 @@ func sortedVals(m map[string]interface{}) []interface{} {
 }
 
 // stepPlain applies a non-indexed step to every value reached so far: a map
-// yields its entry (or all entries for "*"); a list stands for its members
-// (scalar members are selected by "*" only; a list that is itself a member of
-// a list is not entered by a plain key - leniency 7 of DESIGN.md).
+// yields its entry (or all entries for "*"); a list stands for its members -
+// for a plain key also when the member is itself a list. Scalar (and list)
+// members of a list are selected by "*" only.
 func stepPlain(cur []interface{}, k string) []interface{} {
 	var out []interface{}
 	for _, v := range cur {
@@ -67,19 +67,31 @@ func stepPlain(cur []interface{}, k string) []interface{} {
 				out = append(out, vv)
 			}
 		case []interface{}:
-			for _, mem := range x {
-				switch mm := mem.(type) {
-				case map[string]interface{}:
-					if k == "*" {
-						out = append(out, sortedVals(mm)...)
-					} else if vv, ok := mm[k]; ok {
-						out = append(out, vv)
-					}
-				default:
-					if k == "*" {
-						out = append(out, mem)
-					}
-				}
+			out = append(out, stepList(x, k)...)
+		}
+	}
+	return out
+}
+
+func stepList(x []interface{}, k string) []interface{} {
+	var out []interface{}
+	for _, mem := range x {
+		switch mm := mem.(type) {
+		case map[string]interface{}:
+			if k == "*" {
+				out = append(out, sortedVals(mm)...)
+			} else if vv, ok := mm[k]; ok {
+				out = append(out, vv)
+			}
+		case []interface{}:
+			if k == "*" {
+				out = append(out, mem)
+			} else {
+				out = append(out, stepList(mm, k)...)
+			}
+		default:
+			if k == "*" {
+				out = append(out, mem)
 			}
 		}
 	}
